@@ -168,28 +168,28 @@ Theorem C17_to_fillid_no_opt : forall T (k : kws (T:=T)) fr z,
 Proof. exact @lattice_no_opt_rejected. Qed.
 Print Assumptions C17_to_fillid_no_opt.
 
-(* ranges against the number nb of lattice directions: accepted exactly when
-   nb ranges are given, or when nb of them are non-trivial *)
+(* ranges against the number nb of lattice directions (repaired code): accepted
+   exactly when at least nb ranges are given and every range beyond the first
+   nb is trivial (lo = hi) *)
 Theorem C17_lattice_dims_exact : forall nb b,
-  lattice_dims_check nb b = Ok tt <-> (nb = List.length b \/ nb = bounds_dims b).
+  lattice_dims_check nb b = Ok tt <->
+  ((nb <= List.length b)%nat /\ forall r, In r (skipn nb b) -> fst r = snd r).
 Proof. exact lattice_dims_exact. Qed.
 Print Assumptions C17_lattice_dims_exact.
 
 Theorem C17_lattice_dims_rejected : forall nb b,
-  nb <> List.length b -> nb <> bounds_dims b -> lattice_dims_check nb b = Err ELattice.
+  ((List.length b < nb)%nat \/ exists r, In r (skipn nb b) /\ fst r <> snd r) ->
+  lattice_dims_check nb b = Err ELattice.
 Proof. exact lattice_dims_rejected. Qed.
 Print Assumptions C17_lattice_dims_rejected.
 
-(* the full statement (a surplus range must be trivial) is false of the code:
-   the loop that was meant to test it never runs; e.g. a 1-D lattice with
-   ranges 0:0 0:0 0:1 passes *)
-Theorem C17_lattice_trailing_range_refuted :
-  (forall nb b, nb <> List.length b -> nb = bounds_dims b ->
-     Z.to_nat (Z.of_nat nb - Z.of_nat (List.length b)) = 0%nat) /\
-  lattice_dims_check 1 [(0, 0); (0, 0); (0, 1)]%Z = Ok tt /\
-  lattice_dims_check 2 [(0, 0); (0, 1); (0, 1)]%Z = Ok tt.
-Proof. split; [exact missing_loop_dead|split; reflexivity]. Qed.
-Print Assumptions C17_lattice_trailing_range_refuted.
+(* (the former finding lattice_trailing_range_unchecked is repaired: a
+   non-trivial range where the lattice has no direction is rejected) *)
+Example lattice_trailing_range_rejected :
+  lattice_dims_check 1 [(0, 0); (0, 0); (0, 1)]%Z = Err ELattice /\
+  lattice_dims_check 2 [(0, 0); (0, 1); (0, 1)]%Z = Err ELattice /\
+  lattice_dims_check 2 [(0, 0); (0, 1); (0, 0)]%Z = Ok tt.
+Proof. repeat split; reflexivity. Qed.
 
 Theorem C17_lattice_nsurf_exact : forall n k,
   square_nb n = Ok k <-> (n = 2 /\ k = 1 \/ n = 4 /\ k = 2 \/ n = 6 /\ k = 3)%nat.
@@ -198,7 +198,7 @@ Print Assumptions C17_lattice_nsurf_exact.
 
 (* in every run that finishes, every LAT=1 cell filled through an array or a
    --lattice option is bounded by 2, 4 or 6 surface pieces, its ranges fit the
-   number of lattice directions (as many ranges, or as many non-trivial ones),
+   number nb of lattice directions (at least nb ranges, trivial beyond nb),
    and it holds exactly size(ranges) universes *)
 Theorem C17_lattice_ranges_checked : forall T (S : Scalar T) (d : deckm (T:=T)),
   validate S d = Ok tt ->
@@ -210,7 +210,7 @@ Theorem C17_lattice_ranges_checked : forall T (S : Scalar T) (d : deckm (T:=T)),
       cs_fill cs = Some (FLat b univs) -> c_compl c = [] ->
       exists ns nb, count_subsurfs sm (c_lits c) = Ok ns /\
         (ns = 2 /\ nb = 1 \/ ns = 4 /\ nb = 2 \/ ns = 6 /\ nb = 3)%nat /\
-        (nb = List.length b \/ nb = bounds_dims b) /\
+        ((nb <= List.length b)%nat /\ forall r, In r (skipn nb b) -> fst r = snd r) /\
         Z.of_nat (List.length univs) = bounds_size b.
 Proof. exact @run_lattice_ranges_checked. Qed.
 Print Assumptions C17_lattice_ranges_checked.
